@@ -168,6 +168,138 @@ macro_rules! bodies {
                 Some(RefPnl { pnl: scale(capped_total)?, uncapped: scale(total)?, tokens: sdt, total, capped_total, cap_binds })
             }
 
+            /// `size_delta_in_tokens`: all tokens on a full close, else ceil (long) / floor (short) of
+            /// tokens*delta/size.
+            pub fn size_delta_in_tokens() {
+                let pos = any_position(pnl_market(false));
+                let delta: T = kani::any();
+                let (size, tokens) = (u(pos.size_in_usd), u(pos.size_in_tokens));
+                let got = pos.size_delta_in_tokens(&delta);
+                let p = tokens * u(delta);
+                match &got {
+                    Ok(t) => {
+                        if u(delta) == size {
+                            assert!(u(*t) == tokens, "C11: a full close does not close every token");
+                        } else if pos.is_long {
+                            assert!(is_ceil_div(u(*t), p, size), "C11: closed tokens of a long are not ceil(tokens*delta/size)");
+                        } else {
+                            assert!(is_floor_div(u(*t), p, size), "C11: closed tokens of a short are not floor(tokens*delta/size)");
+                        }
+                    }
+                    Err(_) => {
+                        assert!(u(delta) != size);
+                        assert!(size == 0 || (pos.is_long && p > TMAX * size) || (!pos.is_long && p >= (TMAX + 1) * size), "C11: size delta in tokens fails although the result fits");
+                    }
+                }
+                kani::cover!(got.as_ref().map_or(false, |t| pos.is_long && u(*t) * size > p && u(*t) > 1), "long: rounded up");
+                kani::cover!(got.as_ref().map_or(false, |t| !pos.is_long && u(*t) * size < p && u(*t) > 1), "short: rounded down");
+                kani::cover!(got.is_ok() && u(delta) == size && size > 0, "full close");
+                kani::cover!(got.is_err() && size != 0, "overflow");
+                core::mem::forget(got);
+            }
+
+            /// Uncapped branch (market pools zero, so the trader cap never binds): pnl == uncapped pnl ==
+            /// sign(total) * floor(closed_tokens * |total| / tokens) with total = +-(tokens*price - size),
+            /// the price picked against the trader (min for longs, max for shorts).
+            pub fn pnl_uncapped_exact() {
+                let pos = any_position(pnl_market(false));
+                let prices: Prices<T> = any_prices(false);
+                let delta: T = kani::any();
+                let (size, tokens) = (u(pos.size_in_usd), u(pos.size_in_tokens));
+                let exec = if pos.is_long { u(prices.index_token_price.min) } else { u(prices.index_token_price.max) };
+                let value = tokens * exec;
+                let got = pos.pnl_value(&prices, &delta);
+                if let Ok((pnl, uncapped, closed)) = &got {
+                    assert!(value <= SMAX as R && size <= SMAX as R, "C11: pnl computed although the position value does not fit the signed type");
+                    let total: RS = if pos.is_long { value as RS - size as RS } else { size as RS - value as RS };
+                    assert!(*pnl == *uncapped, "C11: pnl differs from the uncapped pnl although the trader cap cannot bind");
+                    // closed tokens: all on a full close, else ceil (long) / floor (short) of tokens*delta/size
+                    if u(delta) == size {
+                        assert!(u(*closed) == tokens, "C11: a full close does not close every token");
+                    } else if pos.is_long {
+                        assert!(is_ceil_div(u(*closed), tokens * u(delta), size), "C11: closed tokens of a long are not ceil(tokens*delta/size)");
+                    } else {
+                        assert!(is_floor_div(u(*closed), tokens * u(delta), size), "C11: closed tokens of a short are not floor(tokens*delta/size)");
+                    }
+                    let tm = total.unsigned_abs() as R;
+                    assert!(is_floor_div(pnl.unsigned_abs() as R, u(*closed) * tm, tokens), "C11: |pnl| is not floor(closed_tokens * |total pnl| / tokens)");
+                    assert!(*pnl == 0 || (*pnl > 0) == (total > 0), "C11: pnl has the wrong sign");
+                    kani::cover!(pos.is_long && *pnl > 1 && u(*closed) < tokens, "long profit, partial close");
+                    kani::cover!(pos.is_long && *pnl < -1, "long loss");
+                    kani::cover!(!pos.is_long && *pnl > 1, "short profit");
+                    kani::cover!(!pos.is_long && *pnl < -1 && u(*closed) < tokens, "short loss, partial close");
+                    kani::cover!(u(prices.index_token_price.min) < u(prices.index_token_price.max) && *pnl != 0, "spread");
+                } else {
+                    // failure only from representability: position value, closed tokens, or the scaled pnl
+                    let p = tokens * u(delta);
+                    let closed_fails = u(delta) != size && (size == 0 || (pos.is_long && p > TMAX * size) || (!pos.is_long && p >= (TMAX + 1) * size));
+                    if !(value > SMAX as R || size > SMAX as R || tokens == 0 || closed_fails) {
+                        // then only the scaled pnl can be too large: |total| * closed >= (SMAX+1) * tokens needs closed > tokens
+                        assert!(u(delta) > size, "C11: pnl fails although every intermediate is representable");
+                    }
+                }
+                kani::cover!(got.is_err() && tokens > 0 && size > 0 && value <= SMAX as R, "fails on the closed tokens / scaled pnl");
+                core::mem::forget(got);
+            }
+
+            /// Full close with a symbolic market: the pnl is the (capped) total pnl itself:
+            /// total if the pool pnl is within the trader cap, else floor(cap * total / pool_pnl);
+            /// pnl <= uncapped pnl = total.
+            pub fn full_close_capped_exact() {
+                let pos = any_position(pnl_market(true));
+                let m = &pos.market;
+                let prices: Prices<T> = any_prices(false);
+                let (size, tokens) = (u(pos.size_in_usd), u(pos.size_in_tokens));
+                let exec = if pos.is_long { u(prices.index_token_price.min) } else { u(prices.index_token_price.max) };
+                let value = tokens * exec;
+                let got = pos.pnl_value(&prices, &pos.size_in_usd);
+                if let Ok((pnl, uncapped, closed)) = &got {
+                    assert!(value <= SMAX as R && size <= SMAX as R);
+                    let total: RS = if pos.is_long { value as RS - size as RS } else { size as RS - value as RS };
+                    assert!(u(*closed) == tokens, "C11: a full close does not close every token");
+                    assert!(s(*uncapped) == total, "C11: full-close uncapped pnl is not +-(tokens*price - size)");
+                    assert!(*pnl <= *uncapped, "C11: the pnl credited exceeds the uncapped pnl");
+                    if total <= 0 {
+                        assert!(*pnl == *uncapped, "C11: a loss was changed by the trader pnl cap");
+                    } else {
+                        // pool pnl of the position's side (maximised) and the trader cap
+                        let oi = u(m.open_interest.get(pos.is_long).long) + u(m.open_interest.get(pos.is_long).short);
+                        let oit = u(m.open_interest_in_tokens.get(pos.is_long).long) + u(m.open_interest_in_tokens.get(pos.is_long).short);
+                        let price = if pos.is_long { u(prices.index_token_price.max) } else { u(prices.index_token_price.min) };
+                        let pool_pnl: RS = if oi == 0 && oit == 0 { 0 } else if pos.is_long { (oit * price) as RS - oi as RS } else { oi as RS - (oit * price) as RS };
+                        let pool_value = if pos.is_long { u(m.liquidity.long) * u(prices.long_token_price.min) } else { u(m.liquidity.short) * u(prices.short_token_price.min) };
+                        let cap = mul_div_floor(pool_value, u(*m.pnl_factor.trader.get(pos.is_long)), UNIT) as RS;
+                        if pool_pnl <= 0 || pool_pnl <= cap {
+                            assert!(*pnl == *uncapped, "C11: pnl was capped although the pool pnl is within the trader cap");
+                        } else {
+                            assert!(is_floor_div(u(pnl.unsigned_abs() as T), (cap as R) * (total as R), pool_pnl as R) && *pnl >= 0, "C11: capped pnl is not floor(cap * total / pool_pnl)");
+                        }
+                        kani::cover!(pool_pnl > cap && *pnl < *uncapped && *pnl > 0 && pos.is_long, "long: cap binds");
+                        kani::cover!(pool_pnl > cap && *pnl < *uncapped && *pnl > 0 && !pos.is_long, "short: cap binds");
+                        kani::cover!(pool_pnl > 0 && pool_pnl <= cap && *pnl > 0, "cap does not bind");
+                        kani::cover!(pool_pnl > cap && cap == 0 && *pnl == 0, "capped to zero");
+                    }
+                }
+                core::mem::forget(got);
+            }
+
+            /// Any close size with a symbolic market: pnl <= uncapped pnl; losses are never capped.
+            pub fn pnl_le_uncapped() {
+                let pos = any_position(pnl_market(true));
+                let prices: Prices<T> = any_prices(false);
+                let delta: T = kani::any();
+                let got = pos.pnl_value(&prices, &delta);
+                if let Ok((pnl, uncapped, _)) = &got {
+                    assert!(*pnl <= *uncapped, "C11: the pnl credited exceeds the uncapped pnl");
+                    assert!(*pnl >= 0 || *pnl == *uncapped, "C11: a loss was changed by the trader pnl cap");
+                    assert!(*uncapped > 0 || *pnl == *uncapped, "C11: a non-positive pnl was changed by the trader pnl cap");
+                    kani::cover!(*pnl < *uncapped && *pnl > 0 && u(delta) < u(pos.size_in_usd), "partial close, cap binds");
+                    kani::cover!(*pnl == *uncapped && *pnl > 0, "cap does not bind");
+                    kani::cover!(*pnl < 0, "loss");
+                }
+                core::mem::forget(got);
+            }
+
             /// Differential check against the exact reference (one evaluation).
             pub fn pnl_value_exact(symbolic_pools: bool) {
                 let pos = any_position(pnl_market(symbolic_pools));
@@ -316,33 +448,53 @@ fn c11_cap_pnl_exact_u16() {
 }
 
 //@ prop=C11 tier=quick kind=hold
-//@ enc=PositionExt::{pnl_value,size_delta_in_tokens}, Price::pick_price_for_pnl, BaseMarketExt::{pnl,pool_value_without_pnl_for_one_side,open_interest,open_interest_in_tokens}, MarketUtils::cap_pnl, MulDiv::checked_mul_div_with_signed_numerator
-//@ bound=width-reduced T=u8, DECIMALS=1 (UNIT 10): every u8 position size (usd, tokens), both sides, every u8 price (validity not assumed), size delta, liquidity / open-interest / open-interest-in-tokens pools and trader pnl factor; compared with the exact reference incl. the failure condition
-//@ stubs=market/position environment = plain-struct VMarket/VPosition
+//@ enc=PositionExt::size_delta_in_tokens
+//@ bound=width-reduced T=u16: every u16 position size (usd, tokens), size delta, both sides
+//@ stubs=position environment = plain-struct VPosition
 //@ timeout=1800
 #[kani::proof]
-fn c11_pnl_value_exact_ref_u8() {
-    w8::pnl_value_exact(true);
+fn c11_size_delta_in_tokens_u16() {
+    w16::size_delta_in_tokens();
 }
 
 //@ prop=C11 tier=quick kind=hold
-//@ enc=PositionExt::{pnl_value,size_delta_in_tokens}, Price::pick_price_for_pnl, MulDiv::checked_mul_div_with_signed_numerator
-//@ bound=width-reduced T=u16, DECIMALS=2: every u16 position size (usd, tokens), both sides, every u16 index price pair and size delta; market pools zero (the trader cap never binds: uncapped branch); compared with the exact reference incl. the failure condition
+//@ enc=PositionExt::{pnl_value,size_delta_in_tokens}, Price::pick_price_for_pnl, BaseMarketExt::{pnl,pool_value_without_pnl_for_one_side}, MarketUtils::cap_pnl, MulDiv::checked_mul_div_with_signed_numerator
+//@ bound=width-reduced T=u8, DECIMALS=1 (UNIT 10): every u8 position size (usd, tokens), both sides, every u8 index price pair (validity not assumed) and size delta; market pools zero (trader cap cannot bind)
 //@ stubs=market/position environment = plain-struct VMarket/VPosition
 //@ timeout=1800
 #[kani::proof]
-fn c11_pnl_value_exact_ref_uncapped_u16() {
-    w16::pnl_value_exact(false);
+fn c11_pnl_uncapped_exact_u8() {
+    w8::pnl_uncapped_exact();
 }
 
 //@ prop=C11 tier=quick kind=hold
-//@ enc=PositionExt::pnl_value, Price::pick_price_for_pnl, BaseMarketExt::pnl, MarketUtils::cap_pnl
-//@ bound=width-reduced T=u8, DECIMALS=1: every u8 position, market pools, trader pnl factor, size delta; two index price pairs p1 <= p2 (both ends ordered), other prices equal; both evaluations must succeed
+//@ enc=PositionExt::pnl_value, Price::pick_price_for_pnl, BaseMarketExt::{pnl,pool_value_without_pnl_for_one_side,open_interest,open_interest_in_tokens}, MarketUtils::cap_pnl, MulDiv::checked_mul_div_with_signed_numerator
+//@ bound=width-reduced T=u8, DECIMALS=1: full close; every u8 position, price, liquidity / open-interest / open-interest-in-tokens pool and trader pnl factor
+//@ stubs=market/position environment = plain-struct VMarket/VPosition
+//@ timeout=1800
+#[kani::proof]
+fn c11_full_close_capped_exact_u8() {
+    w8::full_close_capped_exact();
+}
+
+//@ prop=C11 tier=quick kind=hold
+//@ enc=PositionExt::pnl_value, BaseMarketExt::pnl, MarketUtils::cap_pnl
+//@ bound=width-reduced T=u8, DECIMALS=1: any close size; every u8 position, price, pool and trader pnl factor
+//@ stubs=market/position environment = plain-struct VMarket/VPosition
+//@ timeout=1800
+#[kani::proof]
+fn c11_pnl_le_uncapped_u8() {
+    w8::pnl_le_uncapped();
+}
+
+//@ prop=C11 tier=quick kind=hold
+//@ enc=PositionExt::pnl_value, Price::pick_price_for_pnl
+//@ bound=width-reduced T=u8, DECIMALS=1: every u8 position and size delta; two index price pairs p1 <= p2 (both ends ordered); market pools zero (uncapped branch); both evaluations must succeed
 //@ stubs=market/position environment = plain-struct VMarket/VPosition; by-design exclusion: the credited (capped) pnl is asserted monotone only where the trader cap does not bind, see c11_capped_pnl_monotone_u8
 //@ timeout=1800
 #[kani::proof]
-fn c11_pnl_monotone_in_index_price_u8() {
-    w8::pnl_monotone(true);
+fn c11_pnl_monotone_uncapped_u8() {
+    w8::pnl_monotone(false);
 }
 
 //@ prop=C11 tier=quick kind=finding:c11_capped_pnl_not_monotone
@@ -355,14 +507,44 @@ fn c11_capped_pnl_monotone_u8() {
     w8::capped_pnl_monotone();
 }
 
-//@ prop=C11 tier=quick kind=hold
-//@ enc=PositionExt::{pnl_value,size_delta_in_tokens}, MulDiv::checked_mul_div_with_signed_numerator
-//@ bound=width-reduced T=u8, DECIMALS=1: every u8 position, market pools, trader pnl factor, prices and size delta; full close vs. partial close at the same prices; both evaluations must succeed
+//@ prop=C11 tier=thorough kind=hold
+//@ enc=PositionExt::pnl_value, Price::pick_price_for_pnl, BaseMarketExt::pnl, MarketUtils::cap_pnl
+//@ bound=width-reduced T=u8, DECIMALS=1: every u8 position, market pools, trader pnl factor, size delta; two ordered index price pairs; monotone uncapped pnl always, credited pnl where the cap does not bind
 //@ stubs=market/position environment = plain-struct VMarket/VPosition
-//@ timeout=1800
+//@ timeout=5400 mem=30
+#[kani::proof]
+fn c11_pnl_monotone_in_index_price_u8() {
+    w8::pnl_monotone(true);
+}
+
+//@ prop=C11 tier=thorough kind=hold
+//@ enc=PositionExt::{pnl_value,size_delta_in_tokens}, MulDiv::checked_mul_div_with_signed_numerator
+//@ bound=width-reduced T=u8, DECIMALS=1: every u8 position, market pools, trader pnl factor, prices and size delta; full close vs. partial close at the same prices
+//@ stubs=market/position environment = plain-struct VMarket/VPosition
+//@ timeout=5400 mem=30
 #[kani::proof]
 fn c11_partial_close_is_proportional_u8() {
     w8::partial_close_proportional(true);
+}
+
+//@ prop=C11 tier=thorough kind=hold
+//@ enc=PositionExt::{pnl_value,size_delta_in_tokens}, BaseMarketExt::pnl, MarketUtils::cap_pnl
+//@ bound=width-reduced T=u8, DECIMALS=1: every u8 position, price, size delta, pools and trader pnl factor; compared with the exact composed reference incl. the failure condition
+//@ stubs=market/position environment = plain-struct VMarket/VPosition
+//@ timeout=5400 mem=30
+#[kani::proof]
+fn c11_pnl_value_exact_ref_u8() {
+    w8::pnl_value_exact(true);
+}
+
+//@ prop=C11 tier=thorough kind=hold
+//@ enc=PositionExt::{pnl_value,size_delta_in_tokens}, Price::pick_price_for_pnl
+//@ bound=width-reduced T=u16, DECIMALS=2: uncapped branch (market pools zero), every u16 position, index price pair and size delta
+//@ stubs=market/position environment = plain-struct VMarket/VPosition
+//@ timeout=5400 mem=30
+#[kani::proof]
+fn c11_pnl_uncapped_exact_u16() {
+    w16::pnl_uncapped_exact();
 }
 
 //@ prop=C11 tier=thorough kind=hold
@@ -375,12 +557,7 @@ fn c11_pnl_monotone_uncapped_u16() {
     w16::pnl_monotone(false);
 }
 
-//@ prop=C11 tier=thorough kind=hold
-//@ enc=PositionExt::{pnl_value,size_delta_in_tokens}
-//@ bound=width-reduced T=u16, DECIMALS=2: every u16 position, prices and size delta; market pools zero (uncapped branch); full close vs. partial close
-//@ stubs=market/position environment = plain-struct VMarket/VPosition
-//@ timeout=5400 mem=30
 #[kani::proof]
-fn c11_partial_close_is_proportional_u16() {
-    w16::partial_close_proportional(false);
+fn probe_c11_sdt_u8() {
+    w8::size_delta_in_tokens();
 }
